@@ -353,6 +353,64 @@ class _AttemptLog:
         return False
 
 
+# ------------------------------------------------------------------------------------------------
+# the existence clause for a whole run (`Model/C12Exact.lean`, `universal_block_run_succeeds`): the real
+# `decompose_triangle` with the closed form of the existence theorems plugged in where it calls `solve`
+# ------------------------------------------------------------------------------------------------
+def exact_solve_for(block_name):
+    """A replacement for `decomposition.solve` (the name decompose_triangle looks up at call time) that answers with the
+    closed-form parameters.  It is handed what the real solve is handed: g(p) = |cU_inv[0,0](p)·a + cU_inv[0,1](p)·b|.
+    The closed form needs |a|, |b| and a·conj(b) only; they are read off four values of g at parameter points where
+    the first row of cU_inv is (1,0), (0,·), and two mixing points (no access to the locals of decompose_triangle).
+    Like solve it refuses (None) a point whose g exceeds the precision unless allow_error."""
+    hp = math.pi / 2
+
+    def exact_solve(f, x0, constraint, bounds, precision, allow_error=False):
+        g = lambda *p: float(np.ravel(f(list(p)))[0])
+        if block_name == "bs_ps":          # row = (cos(t/2)·e^{-i phi}, -i·sin(t/2))
+            ra, rb = g(0.0, 0.0), g(math.pi, 0.0)
+            A, B = ra * ra, rb * rb
+            im_w = (A + B - 2 * g(hp, 0.0) ** 2) / 2
+            re_w = (2 * g(hp, hp) ** 2 - A - B) / 2
+            first = math.pi if rb == 0 else 2 * math.atan(ra / rb)
+            second = cmath.phase(complex(re_w, im_w)) - hp
+        elif block_name == "mzi_last":     # row = (h(1 - e^{-i pa}), -i·h(1 + e^{-i pa})·e^{-i pb})
+            ra, rb = g(math.pi, 0.0), g(0.0, 0.0)
+            A, B = ra * ra, rb * rb
+            re_w = (A + B - 2 * g(hp, 0.0) ** 2) / 2
+            im_w = (2 * g(hp, hp) ** 2 - A - B) / 2
+            first = math.pi if ra == 0 else 2 * math.atan(rb / ra)
+            second = -cmath.phase(complex(re_w, im_w))
+        else:
+            raise ValueError(block_name)
+        x = [first, second]
+        if g(*x) > precision and not allow_error:
+            return None
+        return x
+
+    return exact_solve
+
+
+class _ExactSolver:
+    """installs `exact_solve_for(block)` as `decomposition.solve` for the duration of one request"""
+
+    def __init__(self, block_name):
+        self.block_name = block_name
+        self._undo = None
+
+    def __enter__(self):
+        import perceval.components.linear_circuit as LC
+        D = LC.decomposition
+        self._undo = (D, D.solve)
+        D.solve = exact_solve_for(self.block_name)
+        return self
+
+    def __exit__(self, *exc):
+        D, orig = self._undo
+        D.solve = orig
+        return False
+
+
 def observe(spec):
     """Run `Circuit.decomposition` on the spec. Everything returned is plain data."""
     import warnings
@@ -409,8 +467,13 @@ def observe(spec):
             out["warmup_result"] = "none" if w is None else "circuit"
             out["warmup_changed_arg"] = bool(np.max(np.abs(np.array(arg, dtype=complex) - u0)) > 0)
             out["warmup_arg_unitary"] = bool(arg.is_unitary())
-        with _AttemptLog() as al:
-            c = Circuit.decomposition(arg, block, **kw)
+        if spec.get("exact"):
+            # the run-level existence theorem on the real bookkeeping: the closed form instead of scipy
+            with _ExactSolver(spec["block"]), _AttemptLog() as al:
+                c = Circuit.decomposition(arg, block, **kw)
+        else:
+            with _AttemptLog() as al:
+                c = Circuit.decomposition(arg, block, **kw)
         out["attempts"] = al.log
         out["arg_unitary_after"] = bool(arg.is_unitary())
         out["input_changed"] = bool(np.max(np.abs(np.array(arg, dtype=complex) - u0)) > 0)
@@ -467,7 +530,8 @@ def tol_of(spec):
     it for every n <= 6.)"""
     n = spec["n"]
     d = ncells(n) * spec.get("precision", 1e-6)
-    return (math.sqrt(max(n - 1, 0)) + 2) * d + n * d * d + 1e-9
+    # a run with the closed-form solver plugged in (`exact`) has nothing but rounding on top of the bound
+    return (math.sqrt(max(n - 1, 0)) + 2) * d + n * d * d + (1e-11 if spec.get("exact") else 1e-9)
 
 
 def direct_oracle(spec, U, M):
@@ -633,6 +697,11 @@ def closed_form(block, a, b):
     if block == "mzi_last":
         pa = math.pi if a == 0 else 2 * math.atan(abs(b) / abs(a))
         return [pa, cmath.phase(b) - cmath.phase(a)]
+    if block == "bs":                  # bs_alone_nullable_iff: a root exists iff Re(a·conj b) = 0
+        w = a * b.conjugate()
+        return [math.pi if b == 0 else 2 * math.atan(w.imag / abs(b) ** 2)]
+    if block == "mzi_first":           # mzi_phase_first_nullable_iff: iff Im(a·conj b) = 0; phi_a is irrelevant
+        return [0.0, cmath.phase(a - 1j * b) - cmath.phase(a + 1j * b)]
     raise ValueError(block)
 
 
@@ -700,6 +769,16 @@ def judge_cells(chk, obs, rep, items, M_np, U):
         return ("broken", "cell-residue-above-precision",
                 f"cell (j={cells[k][0]}, n={cells[k][1]}): the entry overwritten by u[n,j] = 0 has modulus {worst:.6g} > "
                 f"precision = {prec:.3g} (hypothesis of residue_bound: the acceptance test of solve / the threshold test)")
+    if spec.get("exact"):
+        # every solved cell is nulled by the closed form (`universal_block_run_succeeds`: exactly, here to rounding)
+        zsolved = [z for z, c in zip(zs, cells) if c[2]]
+        chk.extra["max_exact_run_cell_residue"] = max(chk.extra.get("max_exact_run_cell_residue", 0.0),
+                                                      max(zsolved, default=0.0))
+        if max(zsolved, default=0.0) > 1e-12:
+            k = zs.index(max(zsolved))
+            return ("broken", "exact-run-residue",
+                    f"cell (j={cells[k][0]}, n={cells[k][1]}): the closed-form parameters leave {zs[k]:.3g} in the entry "
+                    f"u[n,j] = 0 overwrites (the model says exactly 0; rounding allows 1e-12)")
     delta = sum(zs)
     resid = math.sqrt(float(core.unrat(rep["resid2"])))
     if resid > delta * (1 + 1e-9) + 1e-13:
@@ -714,7 +793,7 @@ def judge_cells(chk, obs, rep, items, M_np, U):
     v, h = bool(spec.get("v")), bool(spec.get("h"))
     if spec.get("phase") and not (v or h):
         F = float(np.linalg.norm(M_np - U))
-        bound = resid + udiag + 1e-9
+        bound = resid + udiag + (1e-11 if spec.get("exact") else 1e-9)
         chk.branch("bound-compared")
         chk.extra["max_frobenius_error_over_bound"] = max(chk.extra.get("max_frobenius_error_over_bound", 0.0),
                                                           F / max(tol_of(spec), 1e-300))
@@ -745,6 +824,25 @@ def judge_cells(chk, obs, rep, items, M_np, U):
                             f"(|equation| = {r_e:.3g} <= precision) but the block carries {vals}, matching only entry "
                             f"#{idx}: the entries are not tried in the listed order")
                 hit(chk, obs, "earlier-full-constraint-rejected")
+    # --- the characterised non-universal blocks: a cell the solver accepted must be (nearly) nullable ---------------
+    # bs_alone_nullable_iff / mzi_phase_first_nullable_iff are exact; |equation| <= precision relaxes the criterion to
+    # |Re(a·conj b)| <= sqrt2·precision·max(|a|,|b|)   (c·Re(a conj b) = Re(e conj b), s·Re(a conj b) = -Re(i a conj e))
+    # |Im(a·conj b)| <= precision·(|a| + |b|)          (| |a - ib| - |a + ib| | <= 2·precision)
+    # (two lines of algebra from the model's equation, evaluated per instance; not a Lean theorem)
+    if spec["block"] in OTHER_BLOCKS and not (v or h):
+        for c in solved:
+            a, b = unc(c[3]), unc(c[4])
+            w = a * b.conjugate()
+            if spec["block"] == "bs":
+                crit, lim = abs(w.real), math.sqrt(2) * prec * max(abs(a), abs(b))
+            else:
+                crit, lim = abs(w.imag), prec * (abs(a) + abs(b))
+            chk.branch("solved-cell-nullable:" + spec["block"])
+            if crit > lim * 1.01 + 1e-13:
+                return ("broken", "solved-cell-not-nullable",
+                        f"cell (j={c[0]}, n={c[1]}) of a circuit returned for the block {spec['block']}: a = {a:.6g}, "
+                        f"b = {b:.6g} has {'Re' if spec['block'] == 'bs' else 'Im'}(a·conj b) = {crit:.3g} > {lim:.3g}: "
+                        f"no parameter value brings the equation below the precision, yet the cell was accepted")
     # --- target 1: the optimiser's parameters against the closed form -------------------------------------------
     if spec["block"] in UNIVERSAL and not (v or h) and len(obs.get("free", [])) == 2:
         for c, it in zip(solved, blocks):
@@ -801,9 +899,51 @@ def gen_block_case(rng):
     return cse
 
 
+OTHER_BLOCKS = ("bs", "mzi_first")          # characterised, not universal (`Model/C12Other.lean`)
+
+
+def gen_other_block_case(rng):
+    """`BS(theta)` alone / `catalog['mzi phase first']`: the block family at rational points (matrix, inverse row and
+    equation against the model), cells built to be nullable (the closed-form root must null the REAL equation) and
+    cells built not to be (the REAL solve must answer None)"""
+    blk = rng.choice(OTHER_BLOCKS)
+    kind = rng.choice(["rational", "nullable", "nullable", "unsolvable", "unsolvable"])
+    q = lambda: Fraction(rng.randint(-12, 12), 8)
+    a, b = (q(), q()), (q(), q())
+    if kind == "nullable":
+        t = Fraction(rng.randint(-12, 12), 4)
+        which = rng.choice(["ratio", "ratio", "ratio", "a0", "b0", "both0"])
+        if which == "ratio" and blk == "bs":          # a = i·t·b
+            a = (-t * b[1], t * b[0])
+        elif which == "ratio":                         # a = t·b
+            a = (t * b[0], t * b[1])
+        if which in ("a0", "both0"):
+            a = (Fraction(0), Fraction(0))
+        if which in ("b0", "both0"):
+            b = (Fraction(0), Fraction(0))
+    if kind == "unsolvable":
+        while True:
+            crit = (a[0] * b[0] + a[1] * b[1]) if blk == "bs" else (a[1] * b[0] - a[0] * b[1])
+            if crit != 0:
+                break
+            a, b = (q(), q()), (q(), q())
+    cse = {"block": blk, "kind": kind, "a": [str(x) for x in a], "b": [str(x) for x in b],
+           "seed": rng.randrange(1, 2 ** 30)}
+    if kind == "rational":
+        if blk == "bs":
+            c, s_ = rat_unit(rng)
+            cse.update(c=str(c), s=str(s_))
+        else:
+            ea, eb = rat_unit(rng), rat_unit(rng)
+            cse.update(ea=[str(ea[0]), str(ea[1])], eb=[str(eb[0]), str(eb[1])])
+    return cse
+
+
 def block_case_params(cse):
     """the real parameter values of a block case"""
     fz = lambda pr: complex(float(Fraction(pr[0])), float(Fraction(pr[1])))
+    if cse["kind"] == "rational" and cse["block"] == "bs":
+        return [2 * math.atan2(float(Fraction(cse["s"])), float(Fraction(cse["c"])))]
     if cse["kind"] == "rational":
         if cse["block"] == "bs_ps":
             p = fz(cse["p"])
@@ -834,6 +974,23 @@ def observe_blocks(cases):
                 row_fn[name] = (sp.lambdify([syms], [cU_inv[0, 0], cU_inv[0, 1]], modules=[np, scp]),
                                 [(bool(x.is_periodic), x.bounds) for x in params])
             f, pinfo = row_fn[name]
+            if cse["kind"] == "unsolvable":
+                # the REAL solve on the REAL equation of a cell the model says no parameter value can null
+                from perceval.utils.algorithms.solve import solve as real_solve
+                fz = lambda pr: complex(float(Fraction(pr[0])), float(Fraction(pr[1])))
+                a, b = fz(cse["a"]), fz(cse["b"])
+                g = lambda p: float(np.abs(f(list(p))[0] * a + f(list(p))[1] * b))
+                rs = np.random.RandomState(cse["seed"])
+                k = len(pinfo)
+                answers = []
+                for _ in range(2):
+                    r = real_solve(g, [float(x) for x in rs.uniform(0, 2 * math.pi, k)], [None] * k, [None] * k, 1e-6)
+                    answers.append(None if r is None else [[float(x) for x in r], g(r)])
+                grid = np.linspace(0, 2 * math.pi, 181)
+                gmin = min(g([t] * k) if k == 1 else min(g([t, u]) for u in grid[::6]) for t in grid)
+                outs.append({"answers": answers, "grid_min": float(gmin),
+                             "bounds_passed": [(not per and bnd or None) is not None for per, bnd in pinfo]})
+                continue
             vals = block_case_params(cse)
             row = [complex(z) for z in f(vals)]
             outs.append({"vals": vals, "U": _rows(block_unitary(name, vals)),
@@ -849,6 +1006,27 @@ def judge_block(chk, cse, out):
         return ("broken", "block-raises-" + out["exc"], f"evaluating the block raised {out['exc']}: {out.get('msg')}")
     fz = lambda pr: complex(float(Fraction(pr[0])), float(Fraction(pr[1])))
     a, b = fz(cse["a"]), fz(cse["b"])
+    if cse["block"] in OTHER_BLOCKS and cse["kind"] != "rational":
+        # the characterisation theorems: the model decides exactly whether the cell has a root at all
+        req = {"op": "blockmat", "block": cse["block"], "a": cse["a"], "b": cse["b"]}
+        req.update({"c": "1", "s": "0"} if cse["block"] == "bs" else {"ea": ["1", "0"], "eb": ["1", "0"]})
+        rep = chk.lean.ask(req)
+        if "err" in rep:
+            return ("broken", "lean-blockmat", f"model rejected the request: {rep['err']}")
+        if rep["nullable"] != (cse["kind"] == "nullable"):
+            return ("broken", "nullable-criterion",
+                    f"{cse['block']}: the case was built as {cse['kind']} (a = {a}, b = {b}) but the model's criterion "
+                    f"says nullable = {rep['nullable']}")
+        if cse["kind"] == "unsolvable":
+            chk.branch("unsolvable-cell:" + cse["block"])
+            chk.extra["min_unsolvable_grid_min"] = min(chk.extra.get("min_unsolvable_grid_min", 1e9), out["grid_min"])
+            got = [x for x in out["answers"] if x is not None]
+            if got:
+                return ("broken", "unsolvable-cell-solved",
+                        f"{cse['block']}: solve returned {got[0][0]} (|equation| = {got[0][1]:.3g}) for a = {a}, b = {b}, "
+                        f"a cell no parameter value nulls ({'bs_alone' if cse['block'] == 'bs' else 'mzi_phase_first'}"
+                        f"_nullable_iff); smallest |equation| on a grid: {out['grid_min']:.3g}")
+            return None
     row = [complex(*z) for z in out["row"]]
     eq_code = row[0] * a + row[1] * b
     if any(out["bounds_passed"]):
@@ -862,7 +1040,8 @@ def judge_block(chk, cse, out):
         if abs(eq_code) > 1e-12 * scale + 1e-300:
             return ("broken", "closed-form-not-a-root",
                     f"{cse['block']}: cU_inv[0,0]·a + cU_inv[0,1]·b = {abs(eq_code):.3g} at the closed-form parameters "
-                    f"{out['vals']} for a = {a}, b = {b} (bsPs/mzi_exists_nulling_parameters say 0)")
+                    f"{out['vals']} for a = {a}, b = {b} (bsPs/mzi_exists_nulling_parameters, bs_alone/"
+                    f"mzi_phase_first_nullable_iff say 0)")
         return None
     req = {"op": "blockmat", "block": cse["block"], "a": cse["a"], "b": cse["b"]}
     for k in ("c", "s", "p", "ea", "eb"):
@@ -1148,11 +1327,22 @@ def judge(chk, obs):
         return ("violation", "caller-matrix-modified",
                 f"a first Circuit.decomposition on this Matrix object wrote into it; the same request repeated on the same "
                 f"object raises {obs['exc']}: {obs.get('msg')}")
+    if "exc" in obs and spec.get("exact"):
+        return ("broken", "exact-run-raises", f"Circuit.decomposition with the closed-form solver plugged in raised "
+                                              f"{obs['exc']}: {obs.get('msg')}")
     if "exc" in obs:
         return ("violation", "raises-" + obs["exc"], f"Circuit.decomposition raised {obs['exc']}: {obs.get('msg')}")
     chk.count("result", ("none" if obs.get("none") else "circuit") + ":" + spec["block"])
     if obs.get("input_changed"):
         chk.count("side_effects", "input matrix modified in place")
+    if obs.get("none") and spec.get("exact"):
+        # `universal_block_run_succeeds`: with a solver that nulls every cell decompose_triangle has no way to answer None
+        att = obs.get("attempts") or []
+        return ("broken", "exact-run-none",
+                f"decompose_triangle answered None although every call of solve was answered with the closed-form root "
+                f"({len(att)} attempt(s), {sum(a['calls'] for a in att)} solver call(s), "
+                f"{sum(a['solved'] for a in att)} accepted): the run-level existence theorem of the model does not "
+                f"describe this code")
     if obs.get("none"):
         chk.branch("none")
         if spec.get("constraints") and len(full_entries(spec)) == len(spec["constraints"]):
@@ -1166,6 +1356,10 @@ def judge(chk, obs):
     flat = obs["flat"]
     M_np = numpy_product(flat, n)
     ok, sig, info = direct_oracle(spec, U, M_np)
+    if not ok and spec.get("exact"):
+        # not a public-API observation (decomposition.solve was replaced by the closed form): a disagreement between
+        # the run-level theorems of the model and the real bookkeeping, not a failing input of the property
+        return ("broken", "exact-run-" + sig, "with the closed-form solver plugged in: " + str(info))
     if not ok:
         return ("violation", sig, info)
     chk.extra["max_err_over_precision"] = max(chk.extra.get("max_err_over_precision", 0.0),
@@ -1179,6 +1373,15 @@ def judge(chk, obs):
     r = judge_attempts(chk, obs, U)
     if r is not None:
         return r
+    if spec.get("exact") and obs.get("attempts") is not None:
+        att = obs["attempts"]
+        if len(att) != 1 or att[0]["calls"] != att[0]["solved"]:
+            return ("broken", "exact-run-retried",
+                    f"with the closed-form solver the first attempt must succeed and every answer must be accepted: "
+                    f"{len(att)} attempt(s), calls/accepted = {[(a['calls'], a['solved']) for a in att]}")
+        hit(chk, obs, "exact-run:" + spec["block"])
+        if spec.get("precision", 1e-6) <= 1e-11:
+            hit(chk, obs, "exact-run-tight-precision")
     # --- structure: only copies of the block, PERMs, phase layer --------------------------------
     v, h = bool(spec.get("v")), bool(spec.get("h"))
     try:
@@ -1362,6 +1565,30 @@ def gen_spec(rng, max_n, i):
     return spec
 
 
+def gen_exact_spec(rng, max_n):
+    """a request of the run-level existence stream: one of the two universal blocks, any matrix kind, the closed-form
+    solver plugged in (`exact`), the default precision or one at rounding level (1e-12: nothing but exact zeros and
+    rounding dust is skipped, the returned matrix must be the requested one to 1e-11)"""
+    spec = {"n": rng.choice([2, 3, 3, 4, 4, 5, 5, 6][:8 if max_n >= 6 else 6]), "kind": rng.choice(KINDS + ["dust7"]),
+            "seed": rng.randrange(1, 2 ** 30), "block": rng.choice(UNIVERSAL), "exact": True}
+    spec["n"] = min(spec["n"], max_n)
+    if spec["kind"] == "dust7":
+        spec["n"] = max(spec["n"], 3)
+    spec["phase"] = rng.random() < 0.7
+    spec["perm"] = rng.random() < (0.7 if spec["kind"] in ("rowperm", "perm", "permphase") else 0.3)
+    if rng.random() < 0.25:
+        spec["ignore"] = False
+    if rng.random() < 0.15:
+        spec["v"] = True
+    if rng.random() < 0.5:
+        spec["precision"] = 1e-12
+    if rng.random() < 0.15:
+        spec["merge"] = False
+    if rng.random() < 0.2:
+        spec["max_try"] = 1
+    return spec
+
+
 NFREE = {"mzi_last": 2, "bs_ps": 2, "bs": 1, "bsphase_ps": 2, "bsH_ps": 2, "bsRy_ps": 2, "bsphase2_ps": 2,
          "mzi_first": 2, "bsH_phibl": 2, "bsH_fixed": 0, "bs_fixed": 0, "bsnp_ps": 2, "bs_psnp": 2, "mzi_np": 2, "bsHnp_ps": 2}
 SPECIAL_ANGLES = [0.0, math.pi, math.pi / 2]
@@ -1513,7 +1740,8 @@ def small_entry_above_tolerance(spec):
 def signature(spec):
     return (spec["n"], spec["kind"], spec["block"], bool(spec.get("phase")), bool(spec.get("perm")),
             spec.get("ignore", True), bool(spec.get("v")), bool(spec.get("h")), spec.get("merge", True),
-            json.dumps(spec.get("constraints")), spec.get("precision", 1e-6), spec.get("warmup"))
+            json.dumps(spec.get("constraints")), spec.get("precision", 1e-6), spec.get("warmup"),
+            bool(spec.get("exact")))
 
 
 # ------------------------------------------------------------------------------------------------
@@ -1792,7 +2020,12 @@ def run(chk: core.Check):
                 "axis-aligned (a, b) (extra.block_cases); plus requests exercising the glue of Circuit.decomposition (shape "
                 "strings / enum members / foreign objects × non-unitary input × constraints of every malformed kind × "
                 "max_try <= 0 × allow_error) whose outcome (exception class / None / circuit and the attempt it came from) "
-                "is compared with Model/C12Glue.lean (extra.glue_cases)")
+                "is compared with Model/C12Glue.lean (extra.glue_cases); plus runs of Circuit.decomposition in which "
+                "decomposition.solve is replaced by the closed form of the existence theorems (extra.exact_run_cases: the "
+                "run-level existence theorem on the real bookkeeping — one attempt, every cell nulled to 1e-12, the matrix "
+                "reproduced to 1e-11 at precision 1e-12); plus BS(theta) alone and catalog['mzi phase first'] at rational "
+                "points, on cells built nullable (closed-form root on the real equation) and on cells the model says no "
+                "parameter value nulls (the real solve must answer None) (extra.other_block_cases)")
     chk.assumptions = [
         "block matrices and the phase shifters' matrices are taken from each leaf's own compute_unitary() (C14)",
         "allow_error=True is not exercised (it voids the precision guarantee by design)",
@@ -1810,6 +2043,11 @@ def run(chk: core.Check):
         "the BS.H block: inverse_h); otherwise Parameter refuses the value (ValueError), a contradictory request",
         "the attempts of the retry loop are observed through wrappers around decomposition.decompose_triangle / "
         "decomposition.solve that call the original functions unchanged",
+        "in the `exact` runs decomposition.solve is REPLACED by the closed-form solver (it is handed the same g, reads |a|, "
+        "|b|, a·conj(b) off four values of g and applies solve's own acceptance test); a failure there is a model/code "
+        "disagreement, not a failing input of the property",
+        "the relaxed nullability test on solved cells of BS(theta) / 'mzi phase first' circuits is a per-instance check "
+        "with a hand-derived tolerance (the exact criterion is the Lean theorem)",
     ]
     chk.required_branches = ["circuit", "none", "solved-block", "identity-skip", "perm-substitution", "phase-layer",
                              "no-phase-layer", "inverse_v", "inverse_h", "ignore-identity-off", "merge-off",
@@ -1843,7 +2081,13 @@ def run(chk: core.Check):
                              "glue:ValueError", "glue:AssertionError", "glue:NotImplementedError", "glue:None",
                              "glue:circuit", "glue:allow-error", "glue:max-try-zero",
                              # a requested precision below the default one, with entries between the two
-                             "entry-between-requested-and-default-precision/generated"]
+                             "entry-between-requested-and-default-precision/generated",
+                             # the run-level existence theorem on the real bookkeeping (closed form instead of scipy)
+                             "exact-run:mzi_last/generated", "exact-run:bs_ps/generated",
+                             "exact-run-tight-precision/generated",
+                             # the two characterised non-universal blocks: family, nullable and unsolvable cells
+                             "blockmat:bs", "blockmat:mzi_first", "closed-form-root:bs", "closed-form-root:mzi_first",
+                             "unsolvable-cell:bs", "unsolvable-cell:mzi_first"]
     chk.lean = core.LeanDriver("C12")
     rng = chk.rng
     n_cases = chk.pick(200, 1500)
@@ -1869,6 +2113,10 @@ def run(chk: core.Check):
         block_pending = [pool.apply_async(observe_blocks, (block_cases[c::4],)) for c in range(4)]
         glue_cases = [gen_glue_case(rng) for _ in range(chk.pick(120, 800))]
         glue_pending = [pool.apply_async(observe_glue, (g,)) for g in glue_cases]
+        exact_specs = [gen_exact_spec(rng, max_n) for _ in range(chk.pick(40, 160))]
+        exact_pending = [pool.apply_async(observe, (e,)) for e in exact_specs]
+        other_cases = [gen_other_block_case(rng) for _ in range(chk.pick(60, 300))]
+        other_pending = [pool.apply_async(observe_blocks, (other_cases[c::4],)) for c in range(4)]
         for i in range(len(specs)):
             obs = pending.pop(i).get()
             if i < ncorpus:
@@ -1889,6 +2137,13 @@ def run(chk: core.Check):
         for g, pend in zip(glue_cases, glue_pending):
             handle_glue(chk, g, pend.get())
         chk.extra["glue_cases"] = len(glue_cases)
+        for pend in exact_pending:
+            handle(chk, pend.get(), pool_observe)
+        chk.extra["exact_run_cases"] = len(exact_specs)
+        for c in range(4):
+            for cse, out in zip(other_cases[c::4], other_pending[c].get()):
+                handle_block(chk, cse, out)
+        chk.extra["other_block_cases"] = len(other_cases)
     chk.extra["decomposition_cpu_s"] = round(tsum, 1)
     chk.extra["pool_wall_s"] = round(time.time() - t0, 1)
     chk.extra["corpus_cases"] = ncorpus
